@@ -836,10 +836,10 @@ func (m *Monitors) Observe(idx int, r *Result) {
 				}
 			case pubT <= T:
 				if a.CompletedAt == nil {
-					m.fire("C13", "not-acked", "seek to %d left delivery %s (published %d) outstanding", T, id, ns(b.PublishedAt))
+					m.fire("C13", "not-acked", "seek to %d left delivery %s (published %d) outstanding", T, id, pubT)
 					if b.CompletedAt != nil {
 						// the seek target is not before the message: this seek rewinds nothing of it
-						m.fire("C03", "reopened-by-later-seek", "delivery %s (published %d) was acknowledged; a seek to %d, which is not before its publish, made it outstanding again", id, ns(b.PublishedAt), T)
+						m.fire("C03", "reopened-by-later-seek", "delivery %s (message published %d) was acknowledged; a seek to %d, which is not before its publish, made it outstanding again", id, pubT, T)
 					}
 				}
 				m.Counts["seek_acked_rows"]++
